@@ -171,6 +171,7 @@ type c17world struct {
 	results chan c17res
 	got     map[int]string
 	newEv   map[int]*c17pend               // call -> its parked newTorrentEvent
+	errcs   map[int]chan error             // call -> its waiter channel (doDownload's errc)
 	tid     map[int]int                    // call -> torrent object id
 	ntor    int
 	dispID  map[*dispatch.Dispatcher]int
@@ -239,7 +240,7 @@ func newC17world(nblobs int, knownMask int, seederTTI, leecherTTI int) (w *c17wo
 
 func newC17worldOnce(nblobs int, knownMask int, seederTTI, leecherTTI int) *c17world {
 	w := &c17world{results: make(chan c17res, 64), got: map[int]string{}, newEv: map[int]*c17pend{},
-		tid: map[int]int{}, dispID: map[*dispatch.Dispatcher]int{}}
+		tid: map[int]int{}, dispID: map[*dispatch.Dispatcher]int{}, errcs: map[int]chan error{}}
 	cads, c := store.CADownloadStoreFixture()
 	w.cads = cads
 	mic := &c17mic{blobs: map[core.Digest]*core.BlobFixture{}}
@@ -356,6 +357,7 @@ func (w *c17world) exec(o c17op) bool {
 		}
 		if mine != nil {
 			w.newEv[call] = mine
+			w.errcs[call] = mine.e.(newTorrentEvent).errc
 		}
 		return true
 	case "Feed":
@@ -581,7 +583,7 @@ func c17oneCase(kind string, nblobs, knownMask, sTTI, lTTI int, next c17script, 
 	if !allBack && atomic.AddInt32(&c17slowWaits, 1) <= 6 {
 		allBack = c17waitN(30000, back)
 	}
-	var sops, sobs, hist []string
+	var sops, sobs, ssur, hist []string
 	for _, o := range ops {
 		sops = append(sops, c17coqOp(o))
 		hist = append(hist, o.k)
@@ -594,6 +596,14 @@ func c17oneCase(kind string, nblobs, knownMask, sTTI, lTTI int, next c17script, 
 		} else {
 			sobs = append(sobs, fmt.Sprintf("(%d, None)", c))
 		}
+		// results sent beyond the one the call consumed are still in its one-slot channel
+		extra := 0
+		if ch, ok := w.errcs[c]; ok {
+			if _, returned := w.got[c]; returned {
+				extra = len(ch)
+			}
+		}
+		ssur = append(ssur, fmt.Sprintf("(%d, %d)", c, extra))
 	}
 	known := []int{}
 	for i := 0; i < nblobs; i++ {
@@ -601,11 +611,11 @@ func c17oneCase(kind string, nblobs, knownMask, sTTI, lTTI int, next c17script, 
 			known = append(known, i)
 		}
 	}
-	coq := fmt.Sprintf("mkcase (mkCfg %d %d) %s %s %s %s", sTTI, lTTI, verifhlib.Ns(known),
-		verifhlib.List(sops), verifhlib.List(sobs), verifhlib.B(w.stuck))
+	coq := fmt.Sprintf("mkcase (mkCfg %d %d) %s %s %s %s %s", sTTI, lTTI, verifhlib.Ns(known),
+		verifhlib.List(sops), verifhlib.List(sobs), verifhlib.B(w.stuck), verifhlib.List(ssur))
 	cs := verifhlib.Case{Coq: coq, NT: len(calls) >= 1 && strings.Contains(strings.Join(hist, " "), "ApNew"),
 		Kind: kind, Hist: hist, Incon: incon, Tags: tags,
-		Sample: map[string]interface{}{"ops": sops, "obs": sobs, "loop_stuck": w.stuck}}
+		Sample: map[string]interface{}{"ops": sops, "obs": sobs, "loop_stuck": w.stuck, "surplus_sends": ssur}}
 	if !w.loop.stopped {
 		w.loop.stop()
 	}
